@@ -16,6 +16,9 @@ mod derived;
 mod gvw;
 #[path = "c11/marsh.rs"]
 mod marsh;
+#[path = "c11/orders.rs"]
+mod orders;
+use orders::*;
 use derived::*;
 use gluon::vm::api::{self, de, ser::Ser, FunctionRef, Getable, Hole, OpaqueValue, OwnedFunction, Pushable};
 use gluon::{RootedThread, Thread, ThreadExt};
@@ -1249,6 +1252,173 @@ fn run_record_orders(cx: &mut Cx) {
 }
 
 
+/// Wave 2: a host type bound with `vm_type` to a gluon-declared type whose field order differs from the
+/// Rust declaration, through the real derive macros, in both directions.
+fn run_order<T>(cx: &mut Cx)
+where
+    T: OrdCase,
+    T::Type: Sized,
+{
+    if cx.only.is_some() {
+        return;
+    }
+    let vm = cx.vm.clone();
+    let name = T::NAME;
+    let shape = T::SHAPE;
+    let imports = "let { N3_g201, E_g120 } = import! c11o\n";
+    let pre = format!("{}{}let {{ {} }} = import! c11o\n", HEADER, imports, name);
+    // values: distinct per field, extremes first, then seeded random ones
+    let mut r = Rng::new(cx.seed, salt(name));
+    let mut vals: Vec<T> = vec![];
+    let strs = |k: usize| -> Vec<String> { (0..7).map(|i| format!("s{}{}", k, (b'a' + i as u8) as char)).collect() };
+    let fixed: [&[i64]; 3] = [&[i64::MIN, i64::MAX, 0, -1, 1, 42, -42], &[i64::MAX, i64::MIN, 7, 1 << 32, -(1 << 32), 3, 2], &[1, 2, 3, 4, 5, 6, 7]];
+    for (k, ints) in fixed.iter().enumerate() {
+        vals.extend(T::make(&mut Src { ints: ints.to_vec(), strs: strs(k), i: 0, s: 0 }));
+    }
+    for k in 0..(if cx.n_random > 100 { 12 } else { 3 }) {
+        let ints: Vec<i64> = (0..7).map(|_| r.next_u64() as i64).collect();
+        vals.extend(T::make(&mut Src { ints, strs: strs(3 + k), i: 0, s: 0 }));
+    }
+    let replay = |dir: &str, x: &T| json!({"op": "order", "type": name, "direction": dir, "val": x.val(), "gluon_fields": T::gluon_fields()});
+    let perm = if T::PERMUTED { "permuted" } else { "same-order" };
+    // derive(VmType): the generated type IS the gluon-declared one
+    match gv::catch(|| <T as api::VmType>::make_type(&vm).to_string()) {
+        Ok(t) if t == format!("c11o.{}", name) => cx.out.count("order:vmtype:ok"),
+        Ok(t) => cx.out.oracle_fail(&format!("derive-vmtype:wrong-type:{}", shape), &format!("{}: make_type gives {} instead of the bound gluon type c11o.{}", name, clip(&t), name), replay("vmtype", &vals[0])),
+        Err(p) => cx.out.oracle_fail(&format!("derive-vmtype:panic:{}", shape), &format!("{}: make_type panicked: {}", name, norm_err(&p)), replay("vmtype", &vals[0])),
+    }
+    // gluon functions of the bound type
+    let mut observers: Vec<OwnedFunction<fn(T) -> String>> = vec![];
+    for (k, o) in T::obs_src().iter().enumerate() {
+        let src = format!("{}let f : {} -> String = {}\nf\n", pre, name, o);
+        match vm.run_expr::<OwnedFunction<fn(T) -> String>>(&format!("c11_ord_obs{}_{}", k, name), &src) {
+            Ok((f, _)) => observers.push(f),
+            Err(e) => cx.out.oracle_fail(&format!("setup:order-observer:{}", shape), &format!("{}: {}", name, norm_err(&e.to_string())), replay("observer-setup", &vals[0])),
+        }
+    }
+    let mut fns: Vec<(&str, OwnedFunction<fn(T) -> T>)> = vec![];
+    for (how, body) in [("identity", "(\\x -> x)".to_string()), ("rebuild", T::rebuild_src())] {
+        let src = format!("{}let f : {} -> {} = {}\nf\n", pre, name, name, body);
+        match vm.run_expr::<OwnedFunction<fn(T) -> T>>(&format!("c11_ord_{}_{}", how, name), &src) {
+            Ok((f, _)) => fns.push((how, f)),
+            Err(e) => cx.out.oracle_fail(&format!("setup:order-{}:{}", how, shape), &format!("{}: {}", name, norm_err(&e.to_string())), replay("fn-setup", &vals[0])),
+        }
+    }
+    for x in &vals {
+        let val = x.val();
+        cx.out.count(&format!("order:{}:{}", shape, perm));
+        cx.out.class(format!("order|{}|{}|{}", shape, T::gluon_fields(), skeleton(&val)));
+        // --- Rust -> gluon value -> Rust (Pushable, then Getable), model op `rt`
+        let pushed = gv::catch(|| -> gluon::vm::Result<(gvw::Gv, Result<T, String>)> {
+            let mut ctx = vm.current_context();
+            x.clone().vm_push(&mut ctx)?;
+            let v = ctx.pop();
+            let g = walk(&vm, (*v).clone());
+            let back = gv::catch(|| T::from_value(&vm, (*v).clone()));
+            Ok((g, back))
+        });
+        match pushed {
+            Ok(Ok((g, back))) => {
+                let b = match back {
+                    Ok(y) => {
+                        if y != *x {
+                            cx.out.oracle_fail(&format!("derive-roundtrip:fields-swapped:{}", shape), &format!("{}: pushed {} came back as {}", name, clip(&val), clip(&y.val())), replay("direct", x));
+                        }
+                        y.val()
+                    }
+                    Err(p) => {
+                        cx.out.oracle_fail(&format!("derive-roundtrip:panic:{}", shape), &format!("{}: from_value of the pushed value panicked: {}", name, norm_err(&p)), replay("direct", x));
+                        "panic".into()
+                    }
+                };
+                cx.out.case(&format!("rt {} {}", T::tcode(), val), &format!("({} {})", g.sexp(), b));
+            }
+            Ok(Err(e)) => cx.out.oracle_fail(&format!("derive-pushable:error:{}", shape), &format!("{}: {}", name, norm_err(&e.to_string())), replay("push", x)),
+            Err(p) => cx.out.oracle_fail(&format!("derive-pushable:panic:{}", shape), &format!("{}: {}", name, norm_err(&p)), replay("push", x)),
+        }
+        // --- Rust -> gluon: gluon code of the DECLARED type observes the corresponding value
+        for f in observers.iter_mut() {
+            match gv::catch(|| f.call(x.clone())) {
+                Ok(Ok(seen)) => {
+                    if seen != x.obs() {
+                        cx.out.oracle_fail(&format!("derive-pushable:fields-swapped:{}", shape), &format!("{} (gluon fields {}): gluon code sees {} for {}", name, T::gluon_fields(), clip(&seen), clip(&x.obs())), replay("observe", x));
+                    } else {
+                        cx.out.count("order:observe:ok");
+                    }
+                }
+                Ok(Err(e)) => cx.out.oracle_fail(&format!("derive-pushable:observer-error:{}", shape), &format!("{} (gluon fields {}): {}", name, T::gluon_fields(), norm_err(&e.to_string())), replay("observe", x)),
+                Err(p) => cx.out.oracle_fail(&format!("derive-pushable:observer-panic:{}", shape), &format!("{}: {}", name, norm_err(&p)), replay("observe", x)),
+            }
+        }
+        // --- round trip through gluon functions (identity; rebuild in the gluon declaration order)
+        for (how, f) in fns.iter_mut() {
+            match gv::catch(|| f.call(x.clone())) {
+                Ok(Ok(y)) => {
+                    if y != *x {
+                        cx.out.oracle_fail(&format!("derive-roundtrip:fields-swapped:{}:{}", how, shape), &format!("{} (gluon fields {}): {} came back as {}", name, T::gluon_fields(), clip(&val), clip(&y.val())), replay(how, x));
+                    } else {
+                        cx.out.count(&format!("order:{}:ok", how));
+                    }
+                }
+                Ok(Err(e)) => cx.out.oracle_fail(&format!("derive-roundtrip:error:{}:{}", how, shape), &format!("{}: {}", name, norm_err(&e.to_string())), replay(how, x)),
+                Err(p) => cx.out.oracle_fail(&format!("derive-roundtrip:panic:{}:{}", how, shape), &format!("{} (gluon fields {}): {}", name, T::gluon_fields(), norm_err(&p)), replay(how, x)),
+            }
+        }
+        // --- gluon -> Rust (Getable): a value written by gluon code in the gluon declaration order
+        let src = format!("{}let v : {} = {}\nv\n", pre, name, x.lit());
+        let got = gv::catch(|| -> Result<(gvw::Gv, Result<T, String>), String> {
+            let (v, _) = vm.run_expr::<OpaqueValue<RootedThread, Hole>>(&format!("c11_ord_lit_{}", name), &src).map_err(|e| e.to_string())?;
+            let g = walk(&vm, v.get_variant());
+            let back = gv::catch(|| T::from_value(&vm, v.get_variant()));
+            Ok((g, back))
+        });
+        match got {
+            Ok(Ok((g, back))) => {
+                let b = match back {
+                    Ok(y) => {
+                        if y != *x {
+                            cx.out.oracle_fail(&format!("derive-getable:fields-swapped:{}", shape), &format!("{}: gluon value {} (fields {}) is read as {}", name, clip(&x.lit()), T::gluon_fields(), clip(&y.val())), replay("get", x));
+                        } else {
+                            cx.out.count("order:get:ok");
+                        }
+                        format!("(some {})", y.val())
+                    }
+                    Err(p) => {
+                        cx.out.oracle_fail(&format!("derive-getable:panic:{}", shape), &format!("{}: reading the gluon value {} (fields {}) panicked: {}", name, clip(&x.lit()), T::gluon_fields(), norm_err(&p)), replay("get", x));
+                        "none".into()
+                    }
+                };
+                cx.out.case(&format!("getg {} {}", T::tcode(), g.sexp()), &b);
+            }
+            Ok(Err(e)) => cx.out.oracle_fail(&format!("derive-getable:literal-refused:{}", shape), &format!("{}: {}", name, norm_err(&e)), replay("get", x)),
+            Err(p) => cx.out.oracle_fail(&format!("derive-getable:panic:{}", shape), &format!("{}: {}", name, norm_err(&p)), replay("get", x)),
+        }
+        // the same through run_expr::<T>
+        match gv::catch(|| vm.run_expr::<T>(&format!("c11_ord_lit2_{}", name), &src)) {
+            Ok(Ok((y, _))) => {
+                if y != *x {
+                    cx.out.oracle_fail(&format!("derive-getable:fields-swapped:{}", shape), &format!("{}: run_expr::<{}> of {} (fields {}) gives {}", name, name, clip(&x.lit()), T::gluon_fields(), clip(&y.val())), replay("get", x));
+                }
+            }
+            Ok(Err(e)) => cx.out.oracle_fail(&format!("derive-getable:refused:{}", shape), &format!("{}: {}", name, norm_err(&e.to_string())), replay("get", x)),
+            Err(p) => cx.out.oracle_fail(&format!("derive-getable:panic:{}", shape), &format!("{}: run_expr::<{}> panicked: {}", name, name, norm_err(&p)), replay("get", x)),
+        }
+        flush(cx);
+    }
+}
+
+fn run_orders(cx: &mut Cx) {
+    if cx.only.is_some() {
+        return;
+    }
+    if let Err(e) = cx.vm.load_script("c11o", ORDER_TYPES_SRC) {
+        cx.out.oracle_fail("setup:order-types:module", &norm_err(&e.to_string()), json!({"op": "order"}));
+        return;
+    }
+    macro_rules! ord { ($($t:ty),* $(,)?) => {$( run_order::<$t>(cx); )*}; }
+    order_types!(ord);
+}
+
 /// Everything whose shape only gluon code produces, in-process.
 fn gluon_built_section(cx: &mut Cx) {
     // values whose shape only gluon code produces
@@ -1274,6 +1444,7 @@ fn gluon_built_section(cx: &mut Cx) {
     run_gluon_arrays::<()>(cx);
     run_gluon_arrays::<(i32, String)>(cx);
     run_record_orders(cx);
+    run_orders(cx);
 }
 
 /// The same in a child process with a time limit: a reader that walks a subtree twice is exponential
